@@ -146,32 +146,12 @@ theorem mem_names_of_aget {fs : FS} {q : Name} {bs : Bytes} (h : aget fs q = som
 theorem boot_no_chunk (cfg : Cfg) (hp : cfg.persistent = true) (hw : cfg.wipeOnExpiry = true) (fs : FS) (id : String) :
     aget (boot cfg fs).fs (.chunk id) = none := by
   simp only [boot, ctorOps, hp, hw, Bool.and_self, if_true]
-  cases hg : aget fs (.chunk id) with
-  | none => rw [purgeOps_keep]; exact hg
-            exact Or.inl (fun hm => by
-              obtain ⟨e, he, heq⟩ := List.mem_map.mp hm
-              have : aget fs (.chunk id) ≠ none := by
-                cases hh : aget fs (Name.chunk id) with
-                | some _ => simp
-                | none =>
-                  exfalso
-                  -- e ∈ fs with key `chunk id` but lookup is none: impossible
-                  have : ∀ (l : FS), e ∈ l → e.1 = Name.chunk id → aget l (.chunk id) ≠ none := by
-                    intro l
-                    induction l with
-                    | nil => intro h; simp at h
-                    | cons x l ih =>
-                      intro hm' hk
-                      obtain ⟨k, v⟩ := x
-                      by_cases hkk : k = Name.chunk id
-                      · simp [aget, hkk]
-                      · simp only [aget, hkk, if_false]
-                        rcases List.mem_cons.mp hm' with h | h
-                        · rw [h] at hk; exact absurd hk hkk
-                        · exact ih h hk
-                  exact this fs he heq hh
-              exact this hg)
-  | some bs => exact purgeOps_gone _ _ _ _ (mem_names_of_aget hg) rfl
+  by_cases hm : Name.chunk id ∈ fs.map (·.1)
+  · exact purgeOps_gone _ _ _ _ hm rfl
+  · rw [purgeOps_keep _ _ _ _ (Or.inl hm)]
+    cases hg : aget fs (.chunk id) with
+    | none => rfl
+    | some bs => exact absurd (mem_names_of_aget hg) hm
 
 theorem boot_other (cfg : Cfg) (fs : FS) (n : String) : aget (boot cfg fs).fs (.other n) = aget fs (.other n) := by
   simp only [boot, ctorOps]
